@@ -2,7 +2,7 @@
 # usage: trybatch.sh <ID>...   - quick look: runs bin/check <ID> against each deliverable of /tmp/mut/<ID>.out (no confirmation step)
 for id in "$@"; do
   for p in patch patch2; do
-    f=/tmp/mut/$id.out/$p.diff
+    f=/tmp/mut/$id.out${SUFFIX:-}/$p.diff
     [ -f $f ] || continue
     r=$(LINES_OUT=30 /verif/bin/trymut.sh $f $id 2>&1 | grep -c "^VIOLATION")
     e=$(LINES_OUT=3 true)
